@@ -1,11 +1,21 @@
 #!/bin/sh
-# tools/selftest.sh [pattern]  -- every hand-written change under selftest/ must be detected by the check of its property
+# tools/selftest.sh [pattern]  -- every hand-written change under selftest/ must be detected by the check of its property:
+#   <ID>-<what>.diff        -> the check exits 1 (a clause the property implies fails)
+#   <ID>-<what>.drift.diff  -> the check exits 0 and prints a SPEC-DRIFT line (the code left the specification, the property still holds)
 cd "$(dirname "$0")/.."
 miss=0
 for f in selftest/${1:-*}.diff; do
   id=$(basename "$f" | cut -d- -f1)
-  line=$(tools/try_mutant.sh "$f" "$id" | tail -1 | cut -c1-200)
-  echo "$(basename "$f"): $line"
-  case "$line" in *"rc=1"*) ;; *) miss=1;; esac
+  SCR=$(mktemp -d /tmp/selftest.XXXXXX)
+  cp -r /repo/src "$SCR/src"; ( cd "$SCR" && patch -p1 -s < "$OLDPWD/$f" )
+  VERIF_REPO_SRC="$SCR/src" bin/check "$id" > "$SCR/log" 2>&1; rc=$?
+  drift=$(grep -c '^SPEC-DRIFT' "$SCR/log")
+  echo "$(basename "$f"): rc=$rc drift_lines=$drift $(grep -E 'failing clause|^SPEC-DRIFT' "$SCR/log" | head -2 | cut -c1-110 | tr '\n' '|')"
+  case "$f" in
+    *.drift.diff) [ $rc -eq 0 ] && [ $drift -gt 0 ] || miss=1;;
+    *) [ $rc -eq 1 ] || miss=1;;
+  esac
+  rm -rf "$SCR"
 done
+git checkout -q -- evidence 2>/dev/null || true
 exit $miss
